@@ -18,6 +18,8 @@ pub enum ObsMode {
     /// like Valid, but only after a pause (milliseconds): the exporter waits on the observation
     /// socket meanwhile
     DelayedValid(Vec<u8>, u64),
+    /// serve the state completely, then keep the connection open (for 30 s) instead of closing it
+    ValidLinger(Vec<u8>),
     /// serve only the first half
     Truncated(Vec<u8>),
     Invalid,
@@ -49,7 +51,10 @@ impl ObsServer {
         let (m2, s2, p2, sv, g2, a2) = (mode.clone(), stop.clone(), path.clone(), served.clone(), gen.clone(), applied.clone());
         let handle = std::thread::spawn(move || {
             let mut listener: Option<UnixListener> = None;
+            // connections kept open after the state was written (ValidLinger)
+            let mut held: Vec<(std::time::Instant, std::os::unix::net::UnixStream)> = vec![];
             while !s2.load(Ordering::Relaxed) {
+                held.retain(|(t, _)| t.elapsed() < Duration::from_secs(30));
                 let (mode, g) = {
                     let m = m2.lock().unwrap();
                     (m.clone(), g2.load(Ordering::SeqCst))
@@ -89,6 +94,12 @@ impl ObsServer {
                             ObsMode::DelayedValid(b, ms) => {
                                 std::thread::sleep(Duration::from_millis(ms));
                                 let _ = s.write_all(&b);
+                            }
+                            ObsMode::ValidLinger(b) => {
+                                let _ = s.write_all(&b);
+                                let _ = s.flush();
+                                held.push((std::time::Instant::now(), s));
+                                continue;
                             }
                             ObsMode::Truncated(b) => {
                                 let _ = s.write_all(&b[..b.len() / 2]);
